@@ -32,8 +32,28 @@ namespace rkverif {
     (void)a.ref();
   }
 
+  // push_back with every value category (the overload set of today, or a single forwarding template: its instantiations
+  // for a non-const lvalue, a const lvalue and an rvalue argument)
+  template <typename T>
+  inline void c12_use_buffer(T &lv, const T &clv)
+  {
+    rkcommon::containers::TransactionalBuffer<T> b;
+    b.push_back(lv);
+    b.push_back(clv);
+    b.push_back(T(clv));
+    (void)b.consume();
+    (void)b.size();
+    (void)b.empty();
+  }
+
   inline void c12_use_all()
   {
+    int i = 0;
+    std::string str("s");
+    std::vector<int> vec{1};
+    c12_use_buffer<int>(i, i);
+    c12_use_buffer<std::string>(str, str);
+    c12_use_buffer<std::vector<int>>(vec, vec);
     c12_use_value<int>(1);
     c12_use_value<double>(1.f);
     c12_use_value<std::string>(std::string("x"));
